@@ -13,8 +13,6 @@ import (
 	flds "github.com/parsyl/parquet/cmd/parquetgen/fields"
 )
 
-const letters = "abcdefghijklmnopqrstuvwxyz"
-
 type field struct {
 	Field     fields.Field
 	tagNames  []string
@@ -124,7 +122,7 @@ func isPrivate(x *ast.Field) bool {
 	} else {
 		s = fmt.Sprintf("%s", x.Names[0])
 	}
-	return strings.Contains(letters, string(s[0]))
+	return !ast.IsExported(s)
 }
 
 func getFields(n map[string]ast.Node) (map[string]fields.Field, error) {
@@ -158,6 +156,9 @@ func getFields(n map[string]ast.Node) (map[string]fields.Field, error) {
 						parent.Children = append(parent.Children, f)
 					}
 				}
+				// the type of a field is not part of this struct: don't
+				// pick up func parameters or the fields of anonymous structs
+				return false
 			}
 			return true
 		})
